@@ -54,6 +54,9 @@ type AtomPlan struct {
 	Signer  int     `json:"signer"`
 	ForkAt  int     `json:"forkat"`          // the experiment runs after this many history blocks
 	Extra   []Op    `json:"extra,omitempty"` // ordinary transactions sharing the block with X / Y
+	// Committee: X and its twin also carry the committee's witness, and pieces of kind >= 10 are native contract
+	// settings (Policy setters incl. whitelisted and attribute fees, blocked accounts, role designation)
+	Committee bool `json:"committee,omitempty"`
 }
 
 var faultNames = [...]string{"ABORT", "THROW", "K.fail", "K.abort", "call-missing-method", "call-missing-contract", "ASSERT-false", "K.putFail"}
@@ -64,10 +67,19 @@ func drawC04(rt *rapid.T, p *Plan, tier string) *Plan {
 	p.Blocks[0].Ops = append([]Op{{Kind: OpDeploy, A: 0, B: 0}, {Kind: OpDeploy, A: 1, B: 1}, {Kind: OpDeploy, A: 2, B: 2}}, p.Blocks[0].Ops...)
 	ap := &AtomPlan{}
 	ap.Mode = rapid.IntRange(0, 2).Draw(rt, "amode")
+	ap.Committee = rapid.Bool().Draw(rt, "committee")
+	maxKind := len(pieceNames) - 1
+	if ap.Committee {
+		maxKind = len(pieceNames) + numSettings*2 - 1 // settings get half of the weight
+		// the history whitelists some helper contract methods (once Faun is active), so that X can set them again
+		for i := 3; i < len(p.Blocks); i++ {
+			p.Blocks[i].Ops = append([]Op{{Kind: OpPolicy, X: 6, B: i % 2, N: int64(i % 2), Y: i % 3}}, p.Blocks[i].Ops...)
+		}
+	}
 	np := rapid.IntRange(1, 7).Draw(rt, "npieces")
 	for i := 0; i < np; i++ {
 		ap.Pieces = append(ap.Pieces, Piece{
-			Kind: rapid.IntRange(0, len(pieceNames)-1).Draw(rt, "pk"),
+			Kind: rapid.IntRange(0, maxKind).Draw(rt, "pk"),
 			A:    rapid.IntRange(0, numAccounts-1).Draw(rt, "pa"),
 			B:    rapid.IntRange(0, numAccounts-1).Draw(rt, "pb"),
 			X:    rapid.IntRange(0, 15).Draw(rt, "px"),
@@ -94,6 +106,37 @@ func drawC04(rt *rapid.T, p *Plan, tier string) *Plan {
 	return p
 }
 
+const numSettings = 7
+
+var settingNames = [...]string{"Policy.setFeePerByte", "Policy.setExecFeeFactor", "Policy.setStoragePrice", "Policy.blockAccount",
+	"Policy.setWhitelistFeeContract", "Policy.setAttributeFee", "RoleManagement.designateAsRole"}
+
+// nativeSetting is the committee-only native call of a piece of kind >= len(pieceNames).
+func (r *run) nativeSetting(pc Piece) (util.Uint160, string, []any) {
+	p := r.prod
+	switch (pc.Kind - len(pieceNames)) % numSettings {
+	case 0:
+		return nativehashes.PolicyContract, "setFeePerByte", []any{int64(500 + pc.X*10)}
+	case 1:
+		return nativehashes.PolicyContract, "setExecFeeFactor", []any{int64(1 + pc.Y*3)}
+	case 2:
+		return nativehashes.PolicyContract, "setStoragePrice", []any{int64(1000 + pc.X*100)}
+	case 3:
+		return nativehashes.PolicyContract, "blockAccount", []any{p.kr.acctHash(pc.A)}
+	case 4:
+		m, argc := "put", 2
+		if pc.X%2 == 1 {
+			m, argc = "get", 1
+		}
+		return nativehashes.PolicyContract, "setWhitelistFeeContract", []any{p.khash[pc.B%2], m, argc, int64(pc.Y%4)*30000 + 1000}
+	case 5:
+		at := []transaction.AttrType{transaction.HighPriority, transaction.OracleResponseT, transaction.NotValidBeforeT, transaction.ConflictsT, transaction.NotaryAssistedT}[pc.X%5]
+		return nativehashes.PolicyContract, "setAttributeFee", []any{int64(at), int64(pc.Y) * 1000}
+	default:
+		return nativehashes.RoleManagement, "designateAsRole", []any{int64(4 + 4*(pc.X%3)), []any{p.kr.accts[pc.A%numAccounts].PublicKey().Bytes()}}
+	}
+}
+
 func appCallDrop(w *nio.BinWriter, h util.Uint160, method string, args ...any) {
 	emit.AppCall(w, h, method, callflag.All, args...)
 	emit.Opcodes(w, opcode.DROP)
@@ -106,6 +149,12 @@ func (r *run) emitPiece(w *nio.BinWriter, pc Piece, signer util.Uint160) string 
 	k2 := p.khash[(pc.B+1)%numContracts]
 	key := kKeys[pc.X%len(kKeys)]
 	val := kVals[pc.Y%len(kVals)]
+	if pc.Kind >= len(pieceNames) && r.plan.Atom.Committee {
+		h, m, args := r.nativeSetting(pc)
+		appCallDrop(w, h, m, args...)
+		r.out.Probes["atom_native_setting_piece"]++
+		return settingNames[(pc.Kind-len(pieceNames))%numSettings]
+	}
 	switch pc.Kind % len(pieceNames) {
 	case 0:
 		appCallDrop(w, k, "put", key, val)
@@ -167,6 +216,17 @@ func (r *run) rawTx(n *Node, script []byte, signer neotest.Signer, sysFee, netFe
 	tx.ValidUntilBlock = n.BC.BlockHeight() + 2
 	tx.NetworkFee = netFee
 	tx.Signers = []transaction.Signer{{Account: signer.ScriptHash(), Scopes: transaction.Global}}
+	if r.plan.Atom != nil && r.plan.Atom.Committee {
+		cm := r.prod.committeeSigner()
+		tx.Signers = append(tx.Signers, transaction.Signer{Account: cm.ScriptHash(), Scopes: transaction.Global})
+		if err := signer.SignTx(n.BC.GetConfig().Magic, tx); err != nil {
+			sim.Harnessf("sign: %v", err)
+		}
+		if err := cm.SignTx(n.BC.GetConfig().Magic, tx); err != nil {
+			sim.Harnessf("committee sign: %v", err)
+		}
+		return tx
+	}
 	if err := signer.SignTx(n.BC.GetConfig().Magic, tx); err != nil {
 		sim.Harnessf("sign: %v", err)
 	}
@@ -437,6 +497,12 @@ func (r *run) atomCaught(T *Node, signer neotest.SingleSigner, extra []*transact
 	for _, pc := range ap.Pieces {
 		kk := kKeys[pc.X%len(kKeys)]
 		vv := kVals[pc.Y%len(kVals)]
+		if pc.Kind >= len(pieceNames) && ap.Committee {
+			h, m, args := r.nativeSetting(pc)
+			effects = append(effects, []any{"call", []any{h, m, args}})
+			r.out.Probes["atom_native_setting_piece"]++
+			continue
+		}
 		switch pc.Kind % 5 {
 		case 0:
 			effects = append(effects, []any{"put", []any{kk, vv}})
